@@ -72,7 +72,7 @@ static void sweep_mincap(long item)
 }
 struct case_budget chk_budget(const char *tier)
 {
-        struct case_budget b = { N_SWEEP_A + N_SWEEP_C, strcmp(tier, "thorough") == 0 ? 1500000 : 90000 };
+        struct case_budget b = { N_SWEEP_A + N_SWEEP_C, strcmp(tier, "thorough") == 0 ? 6000000 : 90000 };
         return b;
 }
 void chk_run_case(uint64_t seed, long c, bool is_sweep)
